@@ -462,7 +462,8 @@ def _own_exec(ctx):
 def own_paths(ctx, name):
     ex = _own_exec(ctx)
     if name not in ctx._own_paths:
-        ctx._own_paths[name] = ex.paths(ctx.prog.body(name))
+        # (paths that take `new.as_raw() == old.as_raw()` although `new` changes a count of `old` cannot happen: CW._feasible)
+        ctx._own_paths[name] = [p for p in ex.paths(ctx.prog.body(name)) if ctx._feasible(p)]
     return ctx._own_paths[name]
 
 
